@@ -9,6 +9,11 @@ amaranth.lib.fifo.AsyncFIFO / AsyncFIFOBuffered:
 * random walks: real FIFO, two hand-driven clocks (write edge / read edge / coincident edges),
   random strobes and data; all outputs after every event against the model (exact) and against
   the Spec monitor (a bounded queue seen from two sides, incl. the drain bound);
+* several FIFOs in ONE simulated design (each owns a reset synchroniser with a private clock domain
+  called "async_ff"): two or three AsyncFIFO / AsyncFIFOBuffered instances with different read clocks
+  (one of them idle or slow), shared or separate write clocks; every FIFO is compared with its own
+  model and Spec monitor run on the projection of the design's clock events onto its two clocks, and
+  its outputs must not move on an event that has none of its clocks;
 * the complete reachable graph of the smallest configurations: every reachable model state is
   loaded into the real FIFO's registers and storage, every event over the whole input alphabet is
   applied, and the successor register state and outputs are compared.
@@ -92,6 +97,53 @@ def walk_worker(job):
             ctx.set(f.r_en, r_en)
             _edge(ctx, Cat, cdw, cdr, kind)
             out["obs"].append(_obs(ctx, f))
+
+    try:
+        sim.add_testbench(tb)
+        sim.run()
+    except Exception as e:  # noqa: BLE001
+        return {"error": "sim:" + common.errkind(e), "msg": str(e)[:200]}
+    return out
+
+
+def design_worker(job):
+    """several FIFOs in one design.  job = (specs, ndom, events)
+    specs = [(cls_name, depth, width, index of the write domain, index of the read domain)]
+    events = [(clock indices with an edge in this event, [(w_en, w_data, r_en) or None per FIFO])]; the inputs of a
+    FIFO are driven only in the events that contain one of its clocks.
+    returns {"depths": [...], "obs": [[obs of every FIFO] before the first and after every event]}"""
+    specs, ndom, events = job
+    try:
+        from amaranth.hdl import Cat, Module, ClockDomain
+        from amaranth.sim import Simulator
+        m = Module()
+        cds = []
+        for j in range(ndom):
+            cd = ClockDomain(f"clk{j}")
+            m.domains += cd
+            cds.append(cd)
+        fifos = []
+        for k, (cls_name, depth, width, wd, rd) in enumerate(specs):
+            f = _cls(cls_name)(width=width, depth=depth, w_domain=f"clk{wd}", r_domain=f"clk{rd}")
+            m.submodules[f"f{k}"] = f
+            fifos.append(f)
+        clks = Cat(*[cd.clk for cd in cds])
+        sim = Simulator(m)
+    except Exception as e:  # noqa: BLE001
+        return {"error": common.errkind(e), "msg": str(e)[:200]}
+    out = {"depths": [f.depth for f in fifos], "obs": []}
+
+    async def tb(ctx):
+        out["obs"].append([_obs(ctx, f) for f in fifos])
+        for hit, inputs in events:
+            for f, inp in zip(fifos, inputs):
+                if inp is not None:
+                    ctx.set(f.w_en, inp[0])
+                    ctx.set(f.w_data, inp[1])
+                    ctx.set(f.r_en, inp[2])
+            ctx.set(clks, sum(1 << j for j in hit))
+            ctx.set(clks, 0)
+            out["obs"].append([_obs(ctx, f) for f in fifos])
 
     try:
         sim.add_testbench(tb)
@@ -246,6 +298,82 @@ def gen_walk(rng, width, steps, depth):
     return evs, profs
 
 
+DESIGN_DEPTHS = [1, 2, 3, 4, 5, 8]
+DESIGN_SHAPES = {
+    # name: (number of FIFOs, sharing of clocks)
+    "two FIFOs, four clocks": (2, "none"),
+    "two FIFOs, one write clock, two read clocks": (2, "write"),
+    "two FIFOs, two write clocks, one read clock": (2, "read"),
+    "two FIFOs back to back (read clock of #0 = write clock of #1)": (2, "chain"),
+    "three FIFOs, one write clock, three read clocks": (3, "write"),
+    "three FIFOs, six clocks": (3, "none"),
+}
+DESIGN_RATES = ["all running", "read clock of the first-added FIFO stands still", "read clock of the first-added FIFO is slow",
+                "read clock of the last-added FIFO stands still", "one random clock stands still"]
+
+
+def gen_design(rng, built, steps):
+    """a design of two or three FIFOs and a schedule over its clocks.  In every segment of the schedule the clocks have
+    their own rates (one read clock idle or slow in most of them); writing starts at once."""
+    shape = rng.choice(sorted(DESIGN_SHAPES))
+    nf, share = DESIGN_SHAPES[shape]
+    specs = []
+    ndom = 0
+    for k in range(nf):
+        c = rng.choice(("AsyncFIFO", "AsyncFIFO", "AsyncFIFOBuffered"))
+        d = rng.choice(DESIGN_DEPTHS)
+        w = rng.choice([1, 4, 4])
+        if share == "write" and k:
+            wd = specs[0][3]
+        elif share == "chain" and k:
+            wd = specs[k - 1][4]
+        else:
+            wd = ndom; ndom += 1
+        if share == "read" and k:
+            rd = specs[0][4]
+        else:
+            rd = ndom; ndom += 1
+        specs.append((c, d, w, wd, rd))
+    events, rates_used = [], []
+    left = 0
+    while len(events) < steps:
+        if left == 0:
+            how = rng.choice(DESIGN_RATES) if events else rng.choice(DESIGN_RATES[1:3] + DESIGN_RATES[1:])
+            rates_used.append(how)
+            rate = [rng.choice([1, 1, 2, 4]) for _ in range(ndom)]
+            if how == DESIGN_RATES[1]: rate[specs[0][4]] = 0
+            elif how == DESIGN_RATES[2]: rate[specs[0][4]] = 0.1
+            elif how == DESIGN_RATES[3]: rate[specs[-1][4]] = 0
+            elif how == DESIGN_RATES[4]: rate[rng.randrange(ndom)] = 0
+            if share == "read" and how in DESIGN_RATES[1:4] and rng.random() < 0.5:
+                rate[specs[0][4]] = 1                        # the only read clock of the design
+            pw, pr = rng.choice([(0.9, 0.3), (0.7, 0.7), (0.5, 0.9), (0.95, 0.1)])
+            left = rng.choice([8, 20, 40, 60])
+        hit = sorted(set(rng.choices(range(ndom), weights=rate, k=1 if rng.random() < 0.75 else rng.randint(2, ndom))))
+        events.append((hit, [(int(rng.random() < pw), rng.getrandbits(w), int(rng.random() < pr))
+                             if (wd in hit or rd in hit) else None for (_c, _d, w, wd, rd) in specs]))
+        left -= 1
+    # writing stops; every clock runs; the readers empty the queues
+    tail = max(built[(c, d)][0] for c, d, *_ in specs) + 6
+    for t in range(2 * tail * nf):
+        hit = sorted(set(rng.choices(range(ndom), k=rng.choice([1, 2, ndom]))))
+        events.append((hit, [(0, 0, int(t >= 6 or rng.random() < 0.3)) if (wd in hit or rd in hit) else None
+                             for (_c, _d, w, wd, rd) in specs]))
+    return shape, specs, ndom, events, rates_used
+
+
+def project_fifo(spec, events, k):
+    """the design's events as FIFO k sees them: ([(W|R|B, w_en, w_data, r_en)], [index of the design event])"""
+    _c, _d, _w, wd, rd = spec
+    evs, idx = [], []
+    for j, (hit, inputs) in enumerate(events):
+        kind = "B" if (wd in hit and rd in hit) else "W" if wd in hit else "R" if rd in hit else None
+        if kind is not None:
+            evs.append((kind,) + tuple(inputs[k]))
+            idx.append(j)
+    return evs, idx
+
+
 def all_events(width):
     """canonical order of the driver's `allEvents`"""
     return [(k, w_en, d, r_en) for k in KINDS for w_en in (0, 1) for d in range(2 ** width) for r_en in (0, 1)]
@@ -281,8 +409,11 @@ def run(chk):
         "walks: per (class, depth in %s, width in %s) seeded event sequences over {W,R,B} x w_en x w_data x r_en drawn from "
         "%d strobe/clock-ratio profiles switched every 3..40 events, followed by a no-write tail and a read-out; distinct = "
         "distinct (class, depth, width, event list); non-trivial = at least one word accepted and one delivered. "
+        "designs: 2-3 FIFOs of both classes in one simulated design (depths %s), %d clock-sharing shapes, per-segment clock "
+        "rates with one read clock idle or slow, inputs of a FIFO driven in the events of its clocks; distinct / non-trivial "
+        "as for walks, per FIFO. "
         "graph: every reachable model state x every event of the finite alphabet, loaded into the real registers."
-        % (WALK_DEPTHS, WIDTHS, len(PROFILES)))
+        % (WALK_DEPTHS, WIDTHS, len(PROFILES), DESIGN_DEPTHS, len(DESIGN_SHAPES)))
 
     # -- 1. Gray helpers ---------------------------------------------------------------------------
     nmax = 7
@@ -342,10 +473,12 @@ def run(chk):
     # -- 3. random walks ---------------------------------------------------------------------------
     per_cfg = 3 if quick else 24
     steps = 300 if quick else 1200
-    def do_walks(jobs, meta, search=False):
-        """run the jobs on the real FIFOs, ask the driver, decide; returns number of Spec violations found"""
+    def do_walks(jobs, meta, search=False, results=None, context=None, tag=""):
+        """run the jobs on the real FIFOs (or take the observations `results` made in a larger design, `context[k]` then
+        describes that design for the replay), ask the driver, decide; returns number of Spec violations found"""
         found = 0
-        results = list(pool.map(walk_worker, jobs, chunksize=2))
+        if results is None:
+            results = list(pool.map(walk_worker, jobs, chunksize=2))
         reqs, idx = [], []
         for k, ((c, d, w, evs), res) in enumerate(zip(jobs, results)):
             mdepth, ctr = built[(c, d)]
@@ -378,15 +511,17 @@ def run(chk):
             nw, nr = len(ints(kv.get("writes", ""))), len(ints(kv.get("reads", "")))
             chk.count(len(evs))
             chk.distinct((c, d, w, tuple(evs)), nontrivial=nw > 0 and nr > 0)
-            chk.hist("depths", f"{c}:{res['depth']}")
-            chk.hist("widths", w)
+            chk.hist(tag + "depths", f"{c}:{res['depth']}")
+            chk.hist(tag + "widths", w)
             for e in evs:
-                chk.hist("events", e[0])
+                chk.hist(tag + "events", e[0])
             for p in meta[k]:
-                chk.hist("profiles", p)
-            chk.hist("full_seen", any(o[0] == 0 for o in res["obs"]))
-            chk.hist("words_per_walk", min(nw // 50 * 50, 500))
+                chk.hist(tag + "profiles", p)
+            chk.hist(tag + "full_seen", any(o[0] == 0 for o in res["obs"]))
+            chk.hist(tag + "words_per_walk", min(nw // 50 * 50, 500))
             replay = {"class": c, "depth": d, "width": w, "events": evs}
+            if context is not None:
+                replay["design"] = context[k]
             chk.sample({"class": c, "depth": d, "width": w, "events": evs[:12], "n_events": len(evs), "accepted": nw,
                         "delivered": nr})
             if kv["mspec"] != "ok":
@@ -397,13 +532,15 @@ def run(chk):
                 step = int(step)
                 replay.update({"events": evs[:step], "violated": clauses, "impl_obs": res["obs"][:step + 1][-4:]})
                 found += 1
-                chk.violation(f"{c}(depth={d}, width={w}): after {step} clock events the outputs {res['obs'][step]} violate "
+                chk.violation((f"{context[k]['where']}: " if context is not None else "") +
+                              f"{c}(depth={d}, width={w}): after {step} clock events the outputs {res['obs'][step]} violate "
                               f"[{clauses}] of the two-sided queue", replay)
                 continue
             if model != res["obs"] and not search:
                 j = next(i for i, (a, b) in enumerate(zip(model, res["obs"])) if a != b)
                 mism.append({"what": "outputs (w_rdy, r_rdy, r_data, w_level, r_level, r_rst)", "after_events": j,
-                             "impl": res["obs"][j], "model": model[j], "class": c, "depth": d, "width": w, "events": evs[:j]})
+                             "impl": res["obs"][j], "model": model[j], "class": c, "depth": d, "width": w, "events": evs[:j],
+                             **({"design": context[k]} if context is not None else {})})
         return found
 
     jobs, meta = [], []
@@ -431,6 +568,54 @@ def run(chk):
         chk.extra["search"] = {"configurations": cfgs, "walks": len(jobs), "spec_violations_found": found}
 
     phase("random walks")
+
+    # -- 3b. several FIFOs in one design -------------------------------------------------------------
+    n_designs = int(os.environ.get("VERIF_C13_DESIGNS", "48" if quick else "600"))
+    dsteps = 120 if quick else 400
+    gens = [gen_design(rng, built, rng.choice([dsteps // 2, dsteps, dsteps])) for _ in range(n_designs)]
+    dres = list(pool.map(design_worker, [(specs, ndom, events) for _sh, specs, ndom, events, _r in gens], chunksize=2))
+    jobs, meta, results, context = [], [], [], []
+    for (shape, specs, ndom, events, rates_used), res in zip(gens, dres):
+        chk.hist("design_shape", shape)
+        chk.hist("design_classes", " + ".join(sorted(c for c, *_ in specs)))
+        chk.hist("design_distinct_read_clocks", len({rd for *_x, rd in specs}))
+        for r in rates_used:
+            chk.hist("design_clock_rates", r)
+        desc = {"fifos": [{"class": c, "depth": d, "width": w, "w_domain": f"clk{wd}", "r_domain": f"clk{rd}"}
+                          for c, d, w, wd, rd in specs], "clocks": ndom, "shape": shape}
+        if "error" in res:
+            if res["error"] == "IndexError" and any((c, d) in seen_f6 for c, d, *_ in specs):
+                chk.hist("designs_skipped_F6", shape)
+                continue
+            chk.violation(f"a design of {len(specs)} asynchronous FIFOs ({shape}) cannot be simulated: {res['error']} {res['msg']}",
+                          {"design": desc, "error": res})
+            continue
+        for k, spec in enumerate(specs):
+            c, d, w, wd, rd = spec
+            evs, idx = project_fifo(spec, events, k)
+            obs = [o[k] for o in res["obs"]]
+            part = set(idx)
+            where = f"FIFO #{k} of {len(specs)} in one design ({shape})"
+            stray = next((j for j in range(len(events)) if j not in part and obs[j + 1] != obs[j]), None)
+            chk.hist("design_fifo_position", f"#{k}: {c}")
+            if stray is not None:
+                chk.count(stray + 1)
+                chk.violation(f"{where}: {c}(depth={d}, width={w}) outputs go {obs[stray]} -> {obs[stray + 1]} at design event "
+                              f"#{stray + 1} (edges of {['clk%d' % x for x in events[stray][0]]}), which has no edge of its "
+                              f"clocks clk{wd} / clk{rd}",
+                              {"design": desc, "fifo": k, "design_events": events[:stray + 1],
+                               "outputs_of_all_fifos": res["obs"][max(0, stray - 3):stray + 2]})
+                continue
+            jobs.append((c, d, w, evs))
+            meta.append([])
+            results.append({"depth": res["depths"][k], "obs": [obs[0]] + [obs[j + 1] for j in idx]})
+            context.append(dict(desc, fifo=k, where=where, design_events=events, projection=idx))
+    n_viol += do_walks(jobs, meta, results=results, context=context, tag="design_")
+    chk.extra["designs"] = {"designs": n_designs, "fifo_runs": len(jobs), "what": (
+        "2-3 AsyncFIFO/AsyncFIFOBuffered instances in one simulated design (shapes: %s); each is compared with its own model "
+        "and Spec monitor on the projection of the schedule onto its clocks" % "; ".join(sorted(DESIGN_SHAPES)))}
+
+    phase("designs of several FIFOs")
 
     # -- 4. complete reachable graphs ---------------------------------------------------------------
     graphs = [("AsyncFIFO", 2, 0)] if quick else [("AsyncFIFO", 2, 0), ("AsyncFIFO", 2, 1), ("AsyncFIFOBuffered", 3, 0),
@@ -476,4 +661,8 @@ def run(chk):
         "Python simulator semantics of hand-toggled clocks: registers of both domains sample pre-edge values on a coincident edge",
         "metastability is outside the simulator and the model: synchroniser stages are plain registers",
         "graph tier reads/writes internal registers by their names in the elaborated design",
+        "designs of several FIFOs: rising-edge domains declared by the top level, no domain is both clocks of one FIFO, "
+        "domain resets held low; the property's quantifier is over clock interleavings and strobe/data sequences, not over "
+        "domain resets (read-/write-domain reset behaviour of AsyncFIFO is not decided here; FFSynchronizer's reset_less "
+        "stages are C17's)",
     ]
